@@ -69,6 +69,21 @@ four conditions were confirmed.
 """
 
 STYLES = {
+    "faultpath": """* In this round aim for FAULT-PATH defects: the change must be invisible on every success path and break the property only on an
+  error, timeout, cancellation, close/shutdown, retry or limit-exceeded path that the statement's domain includes — or when USER
+  code (a handler, callback, delegate method, WSGI app, template expression, overridden hook) raises or misbehaves at a specific
+  point, or when the peer misbehaves (disconnects mid-message, sends garbage after valid data, never reads, answers late).
+* Good places: `except` / `finally` clauses and what they restore, the order of cleanup steps, flags set before vs after an
+  operation that can fail, state that must be reset after a failure so the NEXT operation on the same object still works,
+  partial progress that has to be rolled back or reported, errors that must be reported to exactly one place.""",
+    "interaction": """* In this round aim for INTERACTION defects: the change must be invisible when the feature is used alone with default settings
+  and break the property only when it meets a SECOND feature or a NON-DEFAULT configuration that the statement's domain includes:
+  e.g. a constructor/keyword option away from its default (limits, timeouts, chunk sizes, flags, custom subclasses overriding a
+  documented hook), an HTTP method/status/version other than the usual GET/200/1.1, compression or streaming switched on, a
+  second concurrent user of the same object, reuse of an object after it was closed/stopped/reset once, an operation issued from
+  inside a callback of the same object (re-entrancy), or two of the statement's clauses exercised in one history.
+* Look for the place where two code paths share a variable, a default, a cache or a cleanup routine, and break the sharing for
+  one of them only.""",
     "quiet": """* In this round aim for QUIET defects: the change should alter behaviour only in a narrow corner that the property's statement
   covers but that is easy to forget when testing — a second clause of the statement (re-read it: most statements have several
   clauses; pick the one the earlier changes did NOT attack), an error/cleanup/timeout path, the second of two equivalent APIs
@@ -82,7 +97,7 @@ STYLES = {
 def main():
     rnd, n = int(sys.argv[1]), int(sys.argv[2])
     shift = int(sys.argv[sys.argv.index("--shift") + 1]) if "--shift" in sys.argv else 5
-    style = STYLES["quiet"]
+    style = STYLES[sys.argv[sys.argv.index("--style") + 1]] if "--style" in sys.argv else STYLES["quiet"]
     props = [json.loads(l) for l in open(os.path.join(V, "properties.jsonl"))]
     adir, out = "/tmp/seed/assign%d" % rnd, "/tmp/seed/out%d" % rnd
     os.makedirs(adir, exist_ok=True)
